@@ -541,10 +541,10 @@ func TestVerifC31(t *testing.T) {
 	r.Assumption("single non-clustered node, one non-reentrant grain identity; hooks overlap only at the gated hook of the scenario (no instruction-level interleaving inside the engine)")
 	r.Assumption("the hooks ignore their context: an OnActivate held longer than the init timeout still completes")
 	cfgs := []c31Cfg{
-		{name: "gate-none", gateOn: "", sends: vsched.Pick(3, 3), pills: 1, advT: 1, adv2m: vsched.Pick(0, 1)},
-		{name: "gate-activate", gateOn: "act", sends: 2, pills: 1, advT: 1, adv2m: 0},
-		{name: "gate-receive", gateOn: "recv", sends: vsched.Pick(2, 3), pills: 1, advT: 1, adv2m: 0},
-		{name: "gate-deactivate", gateOn: "deact", sends: 2, pills: 1, advT: 1, adv2m: 0},
+		{name: "gate-none", gateOn: "", sends: 3, pills: 2, advT: 1, adv2m: 1},
+		{name: "gate-activate", gateOn: "act", sends: vsched.Pick(2, 3), pills: 1, advT: 1, adv2m: vsched.Pick(0, 1)},
+		{name: "gate-receive", gateOn: "recv", sends: 3, pills: vsched.Pick(1, 2), advT: 1, adv2m: vsched.Pick(0, 1)},
+		{name: "gate-deactivate", gateOn: "deact", sends: vsched.Pick(2, 3), pills: 2, advT: 1, adv2m: vsched.Pick(0, 1)},
 	}
 	var scs []vsched.Scenario
 	for _, cfg := range cfgs {
